@@ -124,6 +124,24 @@ def shard_comments(shard):
     return st.result([drv])
 
 
+def ext_classes():
+    """CLASSES plus one representative of every equivalence class of the generated scanner that CLASSES misses (bytes of one
+    class are indistinguishable to the scanner in every start condition; recomputed from the build, so a scanner that starts
+    to treat another byte specially gets that byte into the alphabet)"""
+    import json
+    ec = json.load(open(os.path.join(engine.BUILD, 'asan', 'yy_ec.json')))['classes']
+    have = set(c[0] for c in CLASSES)
+    ext, added = list(CLASSES), []
+    for cls, members in sorted(ec.items(), key=lambda kv: int(kv[0])):
+        if not any(m in have for m in members):
+            rep = [m for m in members if m != 0]
+            if rep:
+                ext.append(bytes([rep[0]]))
+                have.add(rep[0])
+                added.append(rep[0])
+    return ext, added
+
+
 def main():
     ck = engine.Check(PID)
     if ck.replay:
@@ -132,13 +150,15 @@ def main():
     engine.build(['asan'])
     quick = ck.tier == 'quick'
     dl = ck.deadline
+    EXT, added = ext_classes()
+    ck.cov['content_classes_added_from_yy_ec'] = added
     # bound 1: every body of length <= 3, all templates, all environments
     shards = []
     for t in ('dq', 'sq', 'dql', 'sql'):
-        shards.append((t, CLASSES, 0, 0, (), ENVS, dl))
-        for a in CLASSES:
-            shards.append((t, CLASSES, 1, 3, (a,), ENVS, dl))
-    engine.phase(ck, 'quoted bodies <= 3', shard_product, shards, templates=4, environments=4, alphabet=len(CLASSES))
+        shards.append((t, EXT, 0, 0, (), ENVS, dl))
+        for a in EXT:
+            shards.append((t, EXT, 1, 3, (a,), ENVS, dl))
+    engine.phase(ck, 'quoted bodies <= 3', shard_product, shards, templates=4, environments=4, alphabet=len(EXT))
     shards = []
     for t in ('uq', 'uql'):
         for a in WORDCLS:
